@@ -271,6 +271,85 @@ theorem C13_order (rots transl : List (Transform ℝ)) :
 
 /-! ### tapers: count, chaining, end points -/
 
+/-! ### the whole pipeline: rigid motion in key order, then scaling -/
+
+theorem applyT_dist (isZero : ℝ → Bool) (t : Transform ℝ) (tg : Nat) (a b : V3 ℝ) :
+    V3.normSq (applyT isZero t tg a - applyT isZero t tg b) = V3.normSq (a - b) := by
+  unfold applyT
+  split
+  · cases t.kind with
+    | rotate => exact C13_rot_length isZero _ _ _ a b
+    | translate =>
+      show V3.normSq (V3.sub (V3.add a t.vec) (V3.add b t.vec)) = V3.normSq (V3.sub a b)
+      simp only [V3.normSq, V3.dot, V3.sub, V3.add]; ring
+  · rfl
+
+theorem foldT_dist (isZero : ℝ → Bool) (ts : List (Transform ℝ)) (tg : Nat) (a b : V3 ℝ) :
+    V3.normSq (ts.foldl (fun q t => applyT isZero t tg q) a - ts.foldl (fun q t => applyT isZero t tg q) b)
+      = V3.normSq (a - b) := by
+  induction ts generalizing a b with
+  | nil => rfl
+  | cons t r ih => simp only [List.foldl_cons]; rw [ih, applyT_dist]
+
+/-- product of the factors acting on `tg`, as a structural recursion -/
+def prodOf (scales : List (Scale ℝ)) (tg : Nat) : ℝ :=
+  match scales with
+  | [] => 1
+  | s :: r => (if actsOn s.tag tg then s.factor else 1) * prodOf r tg
+
+theorem scaleOf_eq (scales : List (Scale ℝ)) (tg : Nat) : scaleOf scales tg = prodOf scales tg := by
+  unfold scaleOf
+  suffices H : ∀ c : ℝ, scales.foldl (fun acc s => if actsOn s.tag tg then acc * s.factor else acc) c
+      = c * prodOf scales tg by
+    have := H ((1 : Nat) : ℝ); simpa using this
+  induction scales with
+  | nil => intro c; simp [prodOf]
+  | cons s r ih =>
+    intro c
+    simp only [List.foldl_cons, prodOf]
+    rw [ih]
+    split <;> ring
+
+theorem applyS_dist (s : Scale ℝ) (tg : Nat) (a b : V3 ℝ) :
+    V3.normSq (applyS s tg a - applyS s tg b)
+      = (if actsOn s.tag tg then s.factor else 1) ^ 2 * V3.normSq (a - b) := by
+  unfold applyS
+  split
+  · show V3.normSq (V3.sub _ _) = _ * V3.normSq (V3.sub a b)
+    simp only [V3.normSq, V3.dot, V3.sub]; ring
+  · simp
+
+theorem foldS_dist (scales : List (Scale ℝ)) (tg : Nat) (a b : V3 ℝ) :
+    V3.normSq (scales.foldl (fun q s => applyS s tg q) a - scales.foldl (fun q s => applyS s tg q) b)
+      = prodOf scales tg ^ 2 * V3.normSq (a - b) := by
+  induction scales generalizing a b with
+  | nil => simp [prodOf]
+  | cons s r ih =>
+    simp only [List.foldl_cons, prodOf]
+    rw [ih, applyS_dist]; ring
+
+/-- **the geometry pipeline keeps the shape of every object**: whatever rotations, translations and
+scale options are given (with or without tags, any keys), the distance between two points of the
+same object after the pipeline is the original distance times the product of the scale factors that
+act on that object — the same factor `Geobj.scale` applies to the wire radius.  Rotations and
+translations therefore act in unscaled coordinates: `pipeline` applies them first, in key order. -/
+theorem C13_pipeline_shape (isZero : ℝ → Bool) (rots transl : List (Transform ℝ))
+    (scales : List (Scale ℝ)) (tg : Nat) (a b : V3 ℝ) :
+    V3.normSq (pipeline isZero rots transl scales tg a - pipeline isZero rots transl scales tg b)
+      = scaleOf scales tg ^ 2 * V3.normSq (a - b) := by
+  unfold pipeline
+  rw [foldS_dist, foldT_dist, scaleOf_eq]
+
+/-- a translation by `v` keyed before a global scale `s` moves a point by `s·v`, not by `v`:
+scaling happens after translation, so translation parameters are in unscaled coordinates -/
+theorem C13_translate_then_scale (isZero : ℝ → Bool) (k s : ℝ) (v p : V3 ℝ) (tg : Nat) :
+    pipeline isZero [] [⟨k, .translate, v, none⟩] [⟨s, none⟩] tg p
+      = ⟨(p.x + v.x) * s, (p.y + v.y) * s, (p.z + v.z) * s⟩ := by
+  simp only [pipeline, orderTransforms, insertT, applyT, applyS, actsOn, List.append_nil, List.nil_append,
+    List.foldl_cons, List.foldl_nil, if_true]
+  rfl
+
+
 theorem taper2Loop_spec (p1 p2 lv minc : V3 ℝ) (eps : ℝ) (n : Nat) :
     ∀ (fuel i state bound : Nat) (p inc1 : V3 ℝ), i + fuel = n → 0 < fuel →
       (taper2Loop p1 p2 lv minc eps n fuel i state bound p inc1).length = fuel ∧
